@@ -24,6 +24,8 @@ def run(rep, tier):
     rep.rule("R15.1", "Thole tensor: T = -3 l5 a a^T + l3 I with a the unit vector from A to B; T = T^T; for au3 >= 40 l3 = l5 = R^-3 so tr T = 0; "
                       "damped: l3 = R^-3 (1 - e^-u), l5 = R^-3 (1 - (1+u) e^-u), u = expdamping R^3 s1 s2")
     rep.rule("R15.2", "monopole: fac1 = 1/|posB - posA| and the charge-charge entry is fac1 * charge")
+    rep.rule("R15.3", "VSiteA<N>: the interaction block (rank a of site A) x (rank b of site B) is accumulated exactly once whenever A carries rank a "
+                      "(N = 1, 4, 9) and B carries rank b (getRank() >= b), for all nine rank pairs - no pair is dropped or doubled by the rank gating")
     units = [front.repo("xtp/src/libxtp/eeinteractor.cc")]
     F = Facts(front.export(units))
     rep.units = units
@@ -46,21 +48,13 @@ def run(rep, tier):
     fo = Fold(f, call=call).run()
     if len(fo.returns) != 1 or not isinstance(fo.returns[0][0], Matrix):
         raise AnalysisBroken("FillTholeInteraction does not fold to one 3x3 return")
-    R0 = fo.returns[0][0]
-    env = fo.exit_env()
-    byname = {d["name"]: env.get(k) for k, d in f.decls.items() if k in env}
-    l3, l5, a = byname.get("lambda3"), byname.get("lambda5"), byname.get("a")
-    diag = [e for e in fo.events if e["kind"] == "store" and nows(e["target"]) == "result.diagonal().array()"]
-    ok_shape = l3 is not None and l5 is not None and isinstance(a, Matrix) and len(diag) == 1
-    dval = None
-    if ok_shape:
-        node = unwrap(diag[0]["node"])
-        rhs = unwrap(node["args"][1])
-        ok_shape = node.get("op") == "+=" and rhs.get("k") == "ref" and rhs.get("decl") in env
-        dval = env.get(rhs.get("decl")) if ok_shape else None
-    if not ok_shape or dval is None:
-        raise AnalysisBroken("FillTholeInteraction: 'result = <matrix>; result.diagonal().array() += <scalar>' shape not recognised")
-    T = R0 + dval * sp.eye(3)
+    T = fo.returns[0][0]          # diagonal updates of the local result matrix are already applied by the fold
+    # a = (posB - posA)/R is what the tensor must be built from; l5 and l3 are read off the folded tensor itself
+    d0v = (pB - pA)
+    Rn0 = NA.norm(d0v)
+    a = d0v / Rn0
+    l5 = -T[0, 1] / (3 * a[0] * a[1])
+    l3 = T[0, 0] + 3 * l5 * a[0] ** 2
     want = -3 * l5 * a * a.T + l3 * sp.eye(3)
     from sympy.core.function import AppliedUndef
     frozen = {}
@@ -93,8 +87,14 @@ def run(rep, tier):
     l3d, l5d = branch(l3, True), branch(l5, True)
     okd = is_zero(sp.simplify(l3d - Rn ** -3 * (1 - sp.exp(-u)))) and is_zero(sp.simplify(l5d - Rn ** -3 * (1 - (1 + u) * sp.exp(-u))))
     rep.check(okd, "R15.1", "damping", "l3 = R^-3 (1 - e^-u), l5 = R^-3 (1 - (1+u) e^-u)", "damped factors are l3 = %s, l5 = %s" % (l3d, l5d), f.loc(), sample=True)
-    conds = [n for n in f.walk() if n.get("k") == "if"]
-    rep.check(len(conds) == 1 and nows(show(conds[0]["cond"])) == "(au3<40)", "R15.1", "damping-switch", "damping applied for au3 < 40", "damping switch is %s" % [show(c["cond"]) for c in conds], f.loc())
+    from vsa.cases import decide
+    cds = {cs: c for cs, c in getattr(fo, "conds", {}).items()}
+    sw_ok = bool(cds)
+    for cs, c in cds.items():
+        lo = decide(c, {u: sp.Integer(39)}) if isinstance(c, tuple) else None
+        hi = decide(c, {u: sp.Integer(40)}) if isinstance(c, tuple) else None
+        sw_ok = sw_ok and lo is not None and hi is not None and lo != hi
+    rep.check(sw_ok, "R15.1", "damping-switch", "damping applied for au3 < 40", "the damping switch is not a threshold on au3 at 40: %s" % list(cds)[:2], f.loc())
 
     # ---------------------------------------------------------------- R15.2
     vs = [g for g in F.funcs if g.qname.endswith("eeInteractor::VSiteA") and g.j["template"] != "instantiation"] or [g for g in F.funcs if g.qname.endswith("eeInteractor::VSiteA")]
@@ -111,3 +111,61 @@ def run(rep, tier):
     rep.assumptions += ["exchange symmetry, translation/rotation invariance, the rank-1/2 tensor blocks, the Coulomb limit of charge clusters and the "
                         "field/energy derivative relation are NOT decided (they need path-sensitive evaluation of VSiteA<N> over if-constexpr/rank "
                         "branches or execution)"]
+    check_rank_gating(rep, F)
+
+
+def check_rank_gating(rep, F):
+    from vsa.cases import executes
+    insts = [f for f in F.funcs if f.qname == X + "eeInteractor::VSiteA" and f.j["template"] == "instantiation"]
+    rep.floor("R15.3", len(insts), 2, "instantiations of eeInteractor::VSiteA")
+    for f in insts:
+        rep.analysed(f)
+        m = re.search(r"VSiteA<(\d+)>", f.j.get("qname_targs") or "")
+        if not m:
+            raise AnalysisBroken("VSiteA instantiation without a numeric template argument: %s" % f.j.get("qname_targs"))
+        N = int(m.group(1))
+        ranksA = {1: [0], 4: [0, 1], 9: [0, 1, 2]}.get(N)
+        if ranksA is None:
+            raise AnalysisBroken("VSiteA<%d>: unexpected size" % N)
+        bname = f.j["params"][1]["name"]
+        fo = Fold(f).run()
+        conds = getattr(fo, "conds", {})
+        rank_atom = Fn("getRank")(S(bname))
+        terms = []
+        outvars = {d_.get("name") for d_ in f.decls.values() if nows(d_.get("type") or "") == nows(f.j["ret"]) and d_.get("name")}
+        for e in fo.events:
+            if e["kind"] != "store":
+                continue
+            t = nows(e["target"])
+            vn = t.split("(")[0].split(".")[0]
+            if not re.match(r"^\w+(\(0\)|\.segment\((1,3|4,5)\))$", t) or vn not in outvars:
+                continue
+            a = 0 if t.endswith("(0)") else (1 if "segment(1,3)" in t else 2)
+            v = e["value"]
+            sv = nows(str(v))
+            bs = set()
+            if "getCharge(%s)" % bname in sv:
+                bs.add(0)
+            if "segment(Q(%s),1,3)" % bname in sv:
+                bs.add(1)
+            if "segment(Q(%s),4,5)" % bname in sv:
+                bs.add(2)
+            if len(bs) != 1:
+                raise AnalysisBroken("VSiteA<%d>: the store to %s uses the moments %s of site B (expected exactly one kind)" % (N, e["target"], sorted(bs)))
+            terms.append((a, bs.pop(), e))
+        for a in ranksA:
+            for b in (0, 1, 2):
+                for rb in range(b, 3):
+                    hits = []
+                    for a_, b_, e in terms:
+                        if (a_, b_) != (a, b):
+                            continue
+                        x = executes(e, {rank_atom: sp.Integer(rb)}, None, None, conds)
+                        if x is None:
+                            raise AnalysisBroken("VSiteA<%d>: cannot decide whether the (%d,%d) block is accumulated for rank(B) = %d" % (N, a, b, rb))
+                        if x:
+                            hits.append(e)
+                    rep.check(len(hits) == 1, "R15.3", "VSiteA<%d>|block(%d,%d)|rankB=%d" % (N, a, b, rb), "rank-%d(A) x rank-%d(B) block accumulated once" % (a, b),
+                              "eeInteractor::VSiteA<%d>: with rank(B) = %d the rank-%d(A) x rank-%d(B) interaction block is accumulated %d times (required once): the pair energy "
+                              "depends on which site is passed first and disagrees with the point-charge limit" % (N, rb, a, b, len(hits)),
+                              f.loc(hits[0]["node"] if hits else None), sample=(N == 9 and (a, b, rb) in ((2, 1, 1), (1, 2, 2))))
